@@ -17,10 +17,10 @@ if [ $ok = 0 ]; then echo "KEEP: NOT kept ($NAME): vetting failed (with=$w witho
 D="$V/seeded/$NAME"; mkdir -p "$D"
 cp -r "$WT"/MUTANT/* "$D"/
 find "$D" -type f -size +300k -delete
-python3 - "$D" "$BREAKS" "$EXPECT" "$NEEDS" <<'PY'
+python3 - "$D" "$BREAKS" "$EXPECT" "$NEEDS" <<PY
 import json, sys
 d, breaks, expect, needs = sys.argv[1:5]
-json.dump({"breaks": breaks.split(","), "origin": "independent sub-agent given only the property text and a scratch worktree (batch 5)",
+json.dump({"breaks": breaks.split(","), "origin": "independent sub-agent given only the property text and a scratch worktree (batch ${BATCH:-5})",
            "needs_to_manifest": needs,
            "vetted": "tools/vet_seed.sh: worktree diff == patch.diff; stable suite 36/36 with the patch (guard off); demo fails with the patch and passes without it",
            "expected_detection": expect.split(",")}, open(d + "/meta.json", "w"), indent=1)
